@@ -4,6 +4,20 @@
 //!   (parse TY V)   <TY as InputType>::parse(V)                         -> (ok R) | (err CLASS)
 //!   (rt TY R)      r = R as a TY; v = r.to_value(); TY::parse(Some(v)) -> (rt V (ok R)|(err CLASS))
 //!   (valid TY V)   <TY as ScalarType>::is_valid(&V)                    -> true | false
+//! stream `schema` (the same scalars reached THROUGH A SCHEMA: the validation rule calls the
+//! `is_valid` the registry holds under the GraphQL name `Int`, the resolver calls `parse`):
+//!   (sch S (ORDER…) TY VIA V)  request against the static schema S whose Query has one field per
+//!                              integer type, in the order ORDER (checked against the schema);
+//!                              field TY gets V as VIA = lit (literal in the document) | var
+//!                              (variable `$v: Int!`, value in the JSON variables) | def (default
+//!                              value of `$v: Int`)
+//!        -> (sch CLASS (ok N) | (rejected validation) | (rejected execution))
+//!   (reg (ORDER…) TY V)        `Registry::default()`, the types of ORDER registered in that order
+//!                              with `InputType::create_type_info`; the validator the registry
+//!                              then holds under `Int`, applied to V (TY = the position's type,
+//!                              one of ORDER: only the judge uses it)
+//!        -> (reg CLASS true|false)
+//!   CLASS = what the registered `Int` validator answers to -1 and 2^63: i64 | u64 | any | other
 //! TY  (int "i8") … (int "NonZeroUsize") | f64 | f32 | bool | string | boxstr | arcstr | char | id
 //!     | (enum NAME ("ITEM" …))      one of the derived enums below; the item list is checked
 //!                                   against `EnumType::items()`
@@ -23,8 +37,13 @@ use std::{
 
 use agvh::*;
 use async_graphql::{
-    Enum, ID, InputType, InputValueError, Name, Number, Pos, ScalarType, Value, resolver_utils::EnumType,
+    EmptyMutation, EmptySubscription, Enum, ID, InputType, InputValueError, Name, Number, Object, Pos, Request, Response,
+    ScalarType, Schema, ServerError, ValidationResult, Value, Variables,
+    extensions::{Extension, ExtensionContext, ExtensionFactory, NextValidation},
+    registry::{MetaType, Registry},
+    resolver_utils::EnumType,
 };
+use std::sync::Mutex;
 
 // ------------------------------------------------------------------ derived enums
 
@@ -300,7 +319,255 @@ fn op_enum<T: InputType + EnumType + Rv>(kind: &str, items: &[Sexp], arg: &Sexp)
     op::<T>(kind, arg)
 }
 
+
+// ------------------------------------------------------------------ stream `schema`
+
+/// what the validation hook saw during the last request
+#[derive(Default)]
+struct Seen {
+    class: Option<&'static str>,
+    validation_failed: bool,
+}
+
+/// probe a validator closure: which 64-bit views does it let through
+fn validator_class(f: &dyn Fn(&Value) -> bool) -> &'static str {
+    let neg = f(&Value::Number(Number::from(-1i64)));
+    let big = f(&Value::Number(Number::from(1u64 << 63)));
+    let sane = f(&Value::Number(Number::from(1u64)))
+        && !f(&Value::Number(Number::from_f64(1.0).unwrap()))
+        && !f(&Value::String("1".into()))
+        && !f(&Value::Null);
+    match (sane, neg, big) {
+        (true, true, false) => "i64",
+        (true, false, true) => "u64",
+        (true, true, true) => "any",
+        _ => "other",
+    }
+}
+
+fn int_validator_class(r: &Registry) -> &'static str {
+    match r.types.get("Int") {
+        Some(MetaType::Scalar { is_valid: Some(f), .. }) => validator_class(&**f),
+        Some(MetaType::Scalar { is_valid: None, .. }) => "none",
+        _ => "missing",
+    }
+}
+
+struct ProbeF(Arc<Mutex<Seen>>);
+impl ExtensionFactory for ProbeF {
+    fn create(&self) -> Arc<dyn Extension> {
+        Arc::new(ProbeE(self.0.clone()))
+    }
+}
+struct ProbeE(Arc<Mutex<Seen>>);
+#[async_graphql::async_trait::async_trait]
+impl Extension for ProbeE {
+    async fn validation(&self, ctx: &ExtensionContext<'_>, next: NextValidation<'_>) -> Result<ValidationResult, Vec<ServerError>> {
+        let class = int_validator_class(&ctx.schema_env.registry);
+        let r = next.run(ctx).await;
+        let mut s = self.0.lock().unwrap();
+        s.class = Some(class);
+        s.validation_failed = r.is_err();
+        r
+    }
+}
+
+struct IntSchema {
+    order: &'static [&'static str],
+    seen: Arc<Mutex<Seen>>,
+    exec: Box<dyn Fn(Request) -> Response>,
+}
+
+macro_rules! int_schema {
+    ($m:ident: $( $f:ident $name:literal $T:ident ),* $(,)?) => {
+        #[allow(non_snake_case)]
+        mod $m {
+            use super::*;
+            pub struct Q;
+            #[Object]
+            impl Q {
+                $(
+                    #[graphql(name = $name)]
+                    async fn $f(&self, x: $T) -> String {
+                        x.to_string()
+                    }
+                )*
+            }
+            pub fn make() -> IntSchema {
+                let seen = Arc::new(Mutex::new(Seen::default()));
+                let schema = Schema::build(Q, EmptyMutation, EmptySubscription).extension(ProbeF(seen.clone())).finish();
+                IntSchema { order: &[$($name),*], seen, exec: Box::new(move |r| spin_on(schema.execute(r))) }
+            }
+        }
+    };
+}
+
+// registration order = order in which `Object::create_type_info` reaches the argument types
+int_schema!(s_u64: a "u64" u64, b "i32" i32, c "i8" i8, d "u8" u8, e "i16" i16, f "u16" u16, g "u32" u32, h "i64" i64,
+    i "isize" isize, j "usize" usize, k "NonZeroI8" NonZeroI8, l "NonZeroU8" NonZeroU8, m "NonZeroI16" NonZeroI16,
+    n "NonZeroU16" NonZeroU16, o "NonZeroI32" NonZeroI32, p "NonZeroU32" NonZeroU32, q "NonZeroI64" NonZeroI64,
+    r "NonZeroU64" NonZeroU64, s "NonZeroIsize" NonZeroIsize, t "NonZeroUsize" NonZeroUsize);
+int_schema!(s_i32: a "i32" i32, b "u64" u64, c "NonZeroU64" NonZeroU64, d "usize" usize, e "NonZeroUsize" NonZeroUsize,
+    f "i64" i64, g "isize" isize, h "NonZeroI64" NonZeroI64, i "NonZeroIsize" NonZeroIsize, j "u32" u32, k "i16" i16,
+    l "u16" u16, m "i8" i8, n "u8" u8, o "NonZeroI32" NonZeroI32, p "NonZeroU32" NonZeroU32, q "NonZeroI16" NonZeroI16,
+    r "NonZeroU16" NonZeroU16, s "NonZeroI8" NonZeroI8, t "NonZeroU8" NonZeroU8);
+int_schema!(s_nzu64: a "NonZeroU64" NonZeroU64, b "NonZeroI8" NonZeroI8, c "u64" u64, d "i64" i64, e "i32" i32,
+    f "NonZeroU8" NonZeroU8, g "NonZeroI64" NonZeroI64, h "usize" usize, i "u8" u8, j "i8" i8, k "NonZeroUsize" NonZeroUsize,
+    l "NonZeroIsize" NonZeroIsize, m "isize" isize, n "u16" u16, o "i16" i16, p "u32" u32, q "NonZeroI16" NonZeroI16,
+    r "NonZeroU16" NonZeroU16, s "NonZeroI32" NonZeroI32, t "NonZeroU32" NonZeroU32);
+int_schema!(s_usize: a "usize" usize, b "NonZeroUsize" NonZeroUsize, c "u8" u8, d "NonZeroI32" NonZeroI32, e "i64" i64);
+int_schema!(s_i8: a "i8" i8, b "u64" u64, c "NonZeroU32" NonZeroU32);
+
+const SCHEMAS: [&str; 5] = ["s_u64", "s_i32", "s_nzu64", "s_usize", "s_i8"];
+
+thread_local! {
+    static INT_SCHEMAS: Vec<(&'static str, IntSchema)> = vec![
+        ("s_u64", s_u64::make()),
+        ("s_i32", s_i32::make()),
+        ("s_nzu64", s_nzu64::make()),
+        ("s_usize", s_usize::make()),
+        ("s_i8", s_i8::make()),
+    ];
+}
+
+fn schema_order(name: &str) -> Option<Vec<&'static str>> {
+    INT_SCHEMAS.with(|ss| ss.iter().find(|s| s.0 == name).map(|s| s.1.order.to_vec()))
+}
+
+/// a value as GraphQL literal text (`None`: not expressible / not used by this stream)
+fn literal(v: &Value) -> Option<String> {
+    Some(match v {
+        Value::Null => "null".into(),
+        Value::Number(n) => {
+            if let Some(u) = n.as_u64() {
+                u.to_string()
+            } else if let Some(i) = n.as_i64() {
+                i.to_string()
+            } else {
+                // shortest round-trip form, always with a fraction or an exponent
+                format!("{:?}", n.as_f64()?)
+            }
+        }
+        Value::String(s) => serde_json::to_string(s).ok()?,
+        Value::Boolean(b) => b.to_string(),
+        Value::Enum(n) => n.to_string(),
+        Value::List(xs) => format!("[{}]", xs.iter().map(literal).collect::<Option<Vec<_>>>()?.join(",")),
+        Value::Object(m) => {
+            format!("{{{}}}", m.iter().map(|(k, v)| literal(v).map(|l| format!("{k}:{l}"))).collect::<Option<Vec<_>>>()?.join(","))
+        }
+        Value::Binary(_) => return None,
+    })
+}
+
+fn strs(s: &Sexp) -> Option<Vec<String>> {
+    s.as_list()?.iter().map(|x| x.as_str().map(|y| y.to_string())).collect()
+}
+
+fn run_sch(a: &[Sexp]) -> Option<Sexp> {
+    let [sname, order, ty, via, v] = a else { return None };
+    let sname = sname.as_atom()?;
+    let order = strs(order)?;
+    let ty = match (ty.tag(), ty.args()) {
+        (Some("int"), [n]) => n.as_str()?,
+        _ => return None,
+    };
+    let v = dec_value(v)??;
+    let real = schema_order(sname)?;
+    if real != order {
+        return Some(node("schema-order", real.iter().map(|x| st(*x)).collect()));
+    }
+    if !order.iter().any(|x| x == ty) {
+        return None;
+    }
+    let req = match via.as_atom()? {
+        "lit" => Request::new(format!("{{ r: {ty}(x: {}) }}", literal(&v)?)),
+        "def" => Request::new(format!("query($v: Int = {}) {{ r: {ty}(x: $v) }}", literal(&v)?)),
+        "var" => {
+            if matches!(v, Value::Enum(_)) {
+                return None; // a JSON variable cannot be an enum value
+            }
+            let mut vars = Variables::default();
+            vars.insert(Name::new("v"), v);
+            Request::new(format!("query($v: Int!) {{ r: {ty}(x: $v) }}")).variables(vars)
+        }
+        _ => return None,
+    };
+    INT_SCHEMAS.with(|ss| {
+        let s = &ss.iter().find(|s| s.0 == sname)?.1;
+        *s.seen.lock().unwrap() = Seen::default();
+        let resp = (s.exec)(req);
+        let seen = s.seen.lock().unwrap();
+        let class = seen.class.unwrap_or("not-validated");
+        let res = if resp.errors.is_empty() {
+            let d = serde_json::to_value(&resp.data).ok()?;
+            node("ok", vec![atom(d.get("r")?.as_str()?)])
+        } else if seen.class.is_none() {
+            node("rejected", vec![atom("parse")])
+        } else if seen.validation_failed {
+            node("rejected", vec![atom("validation")])
+        } else {
+            node("rejected", vec![atom("execution")])
+        };
+        Some(node("sch", vec![atom(class), res]))
+    })
+}
+
+macro_rules! register_fn {
+    ($($name:literal $T:ident),*) => {
+        fn register_int(name: &str, r: &mut Registry) -> bool {
+            match name {
+                $( $name => { <$T as InputType>::create_type_info(r); true } )*
+                _ => false,
+            }
+        }
+    };
+}
+register_fn!("i8" i8, "i16" i16, "i32" i32, "i64" i64, "isize" isize, "u8" u8, "u16" u16, "u32" u32, "u64" u64, "usize" usize,
+    "NonZeroI8" NonZeroI8, "NonZeroI16" NonZeroI16, "NonZeroI32" NonZeroI32, "NonZeroI64" NonZeroI64, "NonZeroIsize" NonZeroIsize,
+    "NonZeroU8" NonZeroU8, "NonZeroU16" NonZeroU16, "NonZeroU32" NonZeroU32, "NonZeroU64" NonZeroU64, "NonZeroUsize" NonZeroUsize);
+
+fn run_reg(a: &[Sexp]) -> Option<Sexp> {
+    let [order, ty, v] = a else { return None };
+    let order = strs(order)?;
+    let ty = match (ty.tag(), ty.args()) {
+        (Some("int"), [n]) => n.as_str()?,
+        _ => return None,
+    };
+    if !order.iter().any(|x| x == ty) {
+        return None;
+    }
+    let v = dec_value(v)??;
+    let mut r = Registry::default();
+    for n in &order {
+        if !register_int(n, &mut r) {
+            return None;
+        }
+    }
+    let class = int_validator_class(&r);
+    let pass = match r.types.get("Int") {
+        Some(MetaType::Scalar { is_valid: Some(f), .. }) => f(&v),
+        _ => return Some(node("reg", vec![atom(class)])),
+    };
+    Some(node("reg", vec![atom(class), pass.show()]))
+}
+
+fn count(out: Sexp, dist: &mut Dist) -> Sexp {
+    let a = out.args();
+    match (out.tag(), a.last().and_then(|x| x.tag())) {
+        (Some("sch"), Some("ok")) => dist.hit("out_sch_ok"),
+        (Some("sch"), Some("rejected")) => dist.hit(&format!("out_sch_rejected_{}", a.last().unwrap().args().first().and_then(|x| x.as_atom()).unwrap_or("?"))),
+        (Some("reg"), _) => dist.hit(&format!("out_reg_{}", a.last().and_then(|x| x.as_atom()).unwrap_or("?"))),
+        _ => dist.hit("out_other"),
+    }
+    out
+}
+
 fn run(case: &Sexp, dist: &mut Dist) -> Sexp {
+    match case.tag() {
+        Some("sch") => return count(run_sch(case.args()).unwrap_or_else(bad), dist),
+        Some("reg") => return count(run_reg(case.args()).unwrap_or_else(bad), dist),
+        _ => {}
+    }
     assert!(usize::BITS == 64, "the model of isize/usize assumes a 64-bit target");
     let (Some(kind), [ty, arg]) = (case.tag(), case.args()) else { return bad() };
     let out = if let Some(t) = ty.as_atom() {
@@ -789,7 +1056,138 @@ fn gen_random(rng: &mut Rng, dist: &mut Dist) -> Sexp {
     }
 }
 
+
+// ------------------------------------------------------------------ generator of stream `schema`
+
+fn int_info(name: &str) -> (i128, i128) {
+    let t = INT_TYPES.iter().find(|t| t.0 == name).expect("integer type");
+    lo_hi(t.1, t.2)
+}
+
+fn order_sexp(order: &[&str]) -> Sexp {
+    list(order.iter().map(|x| st(*x)).collect())
+}
+
+/// the fixed part: every schema x field x lit/var x boundaries of the type and of i64/u64;
+/// every ordered pair (first registered, position type) x the values that tell the views apart
+fn schema_fixed() -> Vec<Sexp> {
+    let mut v = vec![];
+    for sname in SCHEMAS {
+        let order = schema_order(sname).expect("schema");
+        for ty in &order {
+            let (lo, hi) = int_info(ty);
+            let mut vals = vec![lo - 1, lo, hi, hi + 1, 0, -1, i64::MAX as i128, i64::MAX as i128 + 1, NUM_MAX, NUM_MIN];
+            vals.retain(|x| (NUM_MIN..=NUM_MAX).contains(x));
+            vals.sort();
+            vals.dedup();
+            for via in ["lit", "var"] {
+                for x in &vals {
+                    v.push(node("sch", vec![atom(sname), order_sexp(&order), ty_int(ty), atom(via), vint(*x)]));
+                }
+            }
+        }
+    }
+    for first in INT_TYPES.iter() {
+        for t in INT_TYPES.iter() {
+            let order: Vec<&str> = if first.0 == t.0 { vec![t.0] } else { vec![first.0, t.0] };
+            for x in [-1i128, 1, 1 << 63, NUM_MAX] {
+                v.push(node("reg", vec![order_sexp(&order), ty_int(t.0), vint(x)]));
+            }
+        }
+    }
+    v
+}
+
+thread_local! {
+    static SCHEMA_FIXED: Vec<Sexp> = schema_fixed();
+}
+
+fn schema_value(rng: &mut Rng, dist: &mut Dist, lo: i128, hi: i128, json: bool) -> Sexp {
+    match rng.below(20) {
+        0..=5 => {
+            dist.hit("v_int_own_boundary");
+            let b = *rng.pick(&[lo, hi, 0]);
+            vint(b + rng.range(-2, 2) as i128)
+        }
+        6..=8 => {
+            dist.hit("v_int_interesting");
+            vint(*rng.pick(&interesting_ints()))
+        }
+        9..=11 => {
+            // the band the two 64-bit views disagree on
+            dist.hit("v_int_64bit_band");
+            match rng.below(4) {
+                0 => vint(i64::MAX as i128 + rng.range(-2, 3) as i128),
+                1 => vint(NUM_MAX - rng.below(3) as i128),
+                2 => vint(i64::MAX as i128 + 1 + (rng.next_u64() >> 1) as i128),
+                _ => vint(-1 - (rng.next_u64() >> (1 + rng.below(63))) as i128),
+            }
+        }
+        12..=14 => {
+            dist.hit("v_int_random");
+            vint(rand_int(rng))
+        }
+        15 | 16 => {
+            dist.hit("v_float_for_int");
+            match rng.below(3) {
+                0 => vfloat(rng.range(lo.max(-70000) as i64, hi.min(70000) as i64) as f64),
+                1 => vfloat(*rng.pick(&[0.0, -0.0, 1.0, 127.0, 0.5, 1e300, 1.8446744073709552e19, 9.223372036854775807e18])),
+                _ => node("float", vec![num(rand_float_bits(rng, dist))]),
+            }
+        }
+        _ => {
+            dist.hit("v_other_kind");
+            match rng.below(7) {
+                0 => atom("null"),
+                1 => node("bool", vec![atom(if rng.chance(1, 2) { "true" } else { "false" })]),
+                2 if !json => node("enum", vec![st(*rng.pick(&["RED", "A", "X1"]))]),
+                3 => node("list", if rng.chance(1, 3) { vec![] } else { vec![vint(rng.range(-3, 300) as i128)] }),
+                4 => node("obj", if rng.chance(1, 3) { vec![] } else { vec![list(vec![st("a"), vint(rng.range(0, 9) as i128)])] }),
+                5 => vstr(*rng.pick(&["1", "0", "-1", "127", "true", "1.0", "", "RED"])),
+                _ => vstr(&rng.range(-70000, 70000).to_string()),
+            }
+        }
+    }
+}
+
+fn gen_schema(rng: &mut Rng, i: usize, dist: &mut Dist) -> Sexp {
+    let fixed = SCHEMA_FIXED.with(|f| f.get(i).cloned());
+    if let Some(c) = fixed {
+        dist.hit("fixed");
+        return c;
+    }
+    dist.hit("random");
+    if rng.chance(7, 10) {
+        let sname = *rng.pick(&SCHEMAS);
+        let order = schema_order(sname).expect("schema");
+        let ty = *rng.pick(&order);
+        let via = *rng.pick(&["lit", "lit", "var", "var", "def"]);
+        dist.hit(&format!("sch_{sname}_{via}"));
+        let (lo, hi) = int_info(ty);
+        let v = schema_value(rng, dist, lo, hi, via == "var");
+        node("sch", vec![atom(sname), order_sexp(&order), ty_int(ty), atom(via), v])
+    } else {
+        let n = 1 + rng.below(4);
+        let mut order: Vec<&str> = vec![];
+        while order.len() < n {
+            let t = rng.pick(&INT_TYPES).0;
+            if !order.contains(&t) {
+                order.push(t);
+            }
+        }
+        let ty = *rng.pick(&order);
+        let first = INT_TYPES.iter().find(|t| t.0 == order[0]).unwrap();
+        dist.hit(if first.2 { "reg_first_signed" } else { "reg_first_unsigned" });
+        let (lo, hi) = int_info(ty);
+        let v = schema_value(rng, dist, lo, hi, false);
+        node("reg", vec![order_sexp(&order), ty_int(ty), v])
+    }
+}
+
 fn gen_case(rng: &mut Rng, i: usize, o: &Opts, dist: &mut Dist) -> Sexp {
+    if o.stream == "schema" {
+        return gen_schema(rng, i, dist);
+    }
     let mut k = i;
     for b in exhaustive_blocks(&o.tier) {
         if k < b.count {
